@@ -93,7 +93,7 @@ theorem ord_step {k : Nat} {s s' : St} (I : Inv k s) (O : Ord s) (h : Step k s s
       · exact key x (by simp [ht, h]) hS
       · simp [cutOf] at hS
       · exact key x (by simp [ht, h]) hS
-  | apply pre post o b c a rest ht => exact ord_replace pre post _ _ _ _ ht rfl O
+  | apply pre post o b c a l1 l2 ht => exact ord_replace pre post _ _ _ _ ht rfl O
   | publish pre post o b ht =>
     refine ⟨O.snapsPre, ?_, O.chain⟩
     intro x hx S hS
